@@ -45,8 +45,10 @@ MANIFEST_NOTE = ("Partial: MPI itself is trusted (a transfer moves the typemap's
                  "communicated state.  Histories start from a fresh process in the model; in a batch the real process has "
                  "the state left by earlier cases (harmless when the singletons are history independent, which is what the "
                  "theorem and the differential run establish).  Generic functors are exercised on types without tail "
-                 "padding invisible to MPI; the container views of allreduce(Type&&)/iallreduce with the functors that "
-                 "compile both with and without fixes/C07_reduce_container_op.patch.  Known library issue kept out of the generated inputs: Open MPI 4.1 evaluates "
+                 "padding invisible to MPI; the container views of allreduce(Type&&)/iallreduce (repaired by /repo 708cce0, "
+                 "fixes/C07_reduce_container_op.patch) are exercised with functors that also compile when the op is "
+                 "instantiated for the container (generic min/max/left/right on std::vector<T>; named and generic "
+                 "sum/prod/left/right on the int entries of a FieldVector object), so that a regression shows as a replay.  Known library issue kept out of the generated inputs: Open MPI 4.1 evaluates "
                  "MPI_MIN/MPI_MAX on MPI_UNSIGNED_LONG with a signed comparison (reproduced with a bare MPI_Allreduce), so "
                  "unsigned long operands of min/max stay below 2^63.")
 TECHNIQUE = ("Lean 4 proof over cell-level model of typemaps, collectives, MPIPack and the lazily created handle singletons + "
